@@ -223,6 +223,20 @@ Definition just_start (a : span) (first_len : N) : span :=
 Definition just_end (a : span) (last_len : N) : span :=
   (mkLoc (line (snd a)) (col (snd a) - 1) (byte_pos (snd a) - last_len) (char_pos (snd a) - 1), snd a).
 
+(** * The formatter's end_loc (src/format.rs:1760-1800): position of the end of the OUTPUT text
+    written so far, used for the second half of every glyph-map entry.  Its convention differs
+    from the lexer's: line is 0-based (number of '\n'), col = number of chars after the last
+    '\n' (0-based, CR counts), char_pos = number of chars (not grapheme segments).
+    [fixed = false] is the code before 54c7366 (`count as u16`: truncation);
+    [fixed = true] the current code (`u16::try_from(col).unwrap_or(u16::MAX)`: saturation).
+    line is a u16 incremented per '\n' (wrapping in release builds), char_pos a u32. *)
+Definition out_true_col (cs : list chr) : N := nlen (last_line cs).
+Definition end_loc (fixed : bool) (cs : list chr) : Loc :=
+  mkLoc (wrap16 (nlen (filter is_nl cs)))
+        (if fixed then N.min (out_true_col cs) U16MAX else wrap16 (out_true_col cs))
+        (wrap32 (fold_right (fun c n => chr_len c + n) 0 cs))
+        (wrap32 (nlen cs)).
+
 (** * What the tie evaluates on exported cases *)
 Definition mk_loc4 (b c l co : N) : Loc := mkLoc l co b c.
 (** every reported Loc is the one its byte offset should have *)
